@@ -777,3 +777,10 @@ package genql
 //@ func ExistExpr
 //@   at-call append:q.postProcessors assert adopted-after-the-run[C12,C14]: called(exec)
 //@   ensures wait-forwarded[C14]: err == nil && called(exec) ==> called(Add)
+
+// C02: a numeric literal means what strconv.ParseFloat reads in its text (decimal; no octal, no hex), a string literal its text
+//@ func LiteralExpr
+//@   ensures number[C02]: err == nil && (callresult(BuildLiteral, 0) == sqlparser.IntVal || callresult(BuildLiteral, 0) == sqlparser.FloatVal || callresult(BuildLiteral, 0) == sqlparser.DecimalVal) ==>
+//@     | called(ParseFloat) && result == any(callresult(ParseFloat, 0))
+//@   ensures text[C02]: err == nil && callresult(BuildLiteral, 0) == sqlparser.StrVal ==> result == any(NeutalString(callresult(BuildLiteral, 1)))
+//@   at-call ParseFloat assert whole-text-as-a-double[C02]: arg0 == callresult(BuildLiteral, 1) && arg1 == 64
